@@ -122,7 +122,7 @@ def main(chk):
     rng = chk.rng
     cases = []
     cid = 0
-    for i in range(chk.pick(6, 60)):
+    for i in range(chk.pick(4, 60)):
         libseed = rng.randrange(1 << 30)
         for cfg in (rng.sample(sorted(CONFIGS), 2) if chk.quick() else sorted(CONFIGS)):
             cid += 1
